@@ -83,6 +83,8 @@ struct Ep<'a> {
     st: &'a mut Stats,
     cols: Vec<ArrayRef>,
     ty: String,
+    /// operand form of every column (encoding and slicing), when the episode is about forms
+    labels: Vec<String>,
 }
 
 impl<'a> Ep<'a> {
@@ -94,7 +96,7 @@ impl<'a> Ep<'a> {
         t.emit(json!({"op": "new", "ty": ty, "note": note, "cols": keys}));
         st.events += 1;
         st.episodes += 1;
-        Ep { t, st, cols, ty }
+        Ep { t, st, cols, ty, labels: vec![] }
     }
 
     /// add the outcome to the event and write it (unsupported calls are not judged)
@@ -141,7 +143,7 @@ impl<'a> Ep<'a> {
                     // equality tells them apart: that is property C02's subject, not the order's
         }
         let res = call(|| Ok(pairs.iter().map(|(i, j)| l.slice(*i, 1).as_ref() == r.slice(*j, 1).as_ref()).collect::<Vec<bool>>()));
-        let ev = json!({"op": "arreq", "a": a, "b": b, "pairs": pairs.iter().map(|(i, j)| json!([i, j])).collect::<Vec<_>>()});
+        let ev = json!({"op": "arreq", "a": a, "b": b, "fam": tok::family(l.data_type()), "pairs": pairs.iter().map(|(i, j)| json!([i, j])).collect::<Vec<_>>()});
         self.finish(ev, res, |m, v| {
             m.insert("out".into(), json!(v));
         });
@@ -261,8 +263,13 @@ impl<'a> Ep<'a> {
             (false, true) => fun(&l, &Scalar::new(r.clone())),
             (true, true) => fun(&Scalar::new(l.clone()), &Scalar::new(r.clone())),
         });
-        let ev = json!({"op": "kern", "f": f, "a": a, "as": a_scalar, "b": b, "bs": b_scalar,
+        let mut ev = json!({"op": "kern", "f": f, "a": a, "as": a_scalar, "b": b, "bs": b_scalar,
                         "lt": tok::family(l.data_type()), "rt": tok::family(r.data_type())});
+        if !self.labels.is_empty() {
+            let m = ev.as_object_mut().unwrap();
+            m.insert("lf".into(), json!(self.labels[a]));
+            m.insert("rf".into(), json!(self.labels[b]));
+        }
         self.finish(ev, res, |m, v| {
             let rows: Vec<i64> = (0..v.len()).map(|i| if v.is_null(i) { 2 } else { v.value(i) as i64 }).collect();
             m.insert("out".into(), json!(rows));
@@ -521,6 +528,244 @@ fn kernels(rng: &mut Rng, args: &Args, t: &mut Shards, st: &mut Stats, a: ArrayR
     }
 }
 
+
+// ------------------------------------------------- operand forms of the kernels
+
+/// rows taken from a small base array in runs of 1-3 equal rows (so that run-end encodings have real runs)
+fn runny(rng: &mut Rng, dt: &DataType, n: usize) -> ArrayRef {
+    let m = 2 + rng.below(3);
+    let base = mk::array(rng, dt, m, Cfg::wild(25));
+    let mut idx: Vec<u32> = vec![];
+    while idx.len() < n {
+        let v = rng.below(m) as u32;
+        for _ in 0..1 + rng.below(3) {
+            if idx.len() < n {
+                idx.push(v);
+            }
+        }
+    }
+    match guarded(|| arrow_select::take::take(base.as_ref(), &UInt32Array::from(idx), None)) {
+        Ok(Ok(a)) if a.len() == n => a,
+        _ => mk::array(rng, dt, n, Cfg::wild(25)),
+    }
+}
+
+/// run-end encoding of `plain` with run ends of `width` bits; runs are the maximal runs of
+/// logically equal rows (row tokens), some split further.  Returns the array and the run starts.
+fn ree_encode(rng: &mut Rng, plain: &ArrayRef, width: u8, split_pct: usize) -> Option<(ArrayRef, Vec<usize>)> {
+    use arrow_array::types::{Int16Type, Int32Type, Int64Type};
+    let n = plain.len();
+    if n == 0 {
+        return None;
+    }
+    let toks = tok::rows(plain.as_ref());
+    let mut starts = vec![0usize];
+    for i in 1..n {
+        if toks[i] != toks[i - 1] || rng.chance(split_pct) {
+            starts.push(i);
+        }
+    }
+    let values = guarded(|| arrow_select::take::take(plain.as_ref(), &UInt32Array::from(starts.iter().map(|x| *x as u32).collect::<Vec<_>>()), None)).ok()?.ok()?;
+    let ends: Vec<usize> = starts.iter().skip(1).copied().chain(std::iter::once(n)).collect();
+    let arr: ArrayRef = match width {
+        16 => Arc::new(RunArray::<Int16Type>::try_new(&Int16Array::from(ends.iter().map(|x| *x as i16).collect::<Vec<_>>()), values.as_ref()).ok()?),
+        32 => Arc::new(RunArray::<Int32Type>::try_new(&Int32Array::from(ends.iter().map(|x| *x as i32).collect::<Vec<_>>()), values.as_ref()).ok()?),
+        _ => Arc::new(RunArray::<Int64Type>::try_new(&Int64Array::from(ends.iter().map(|x| *x as i64).collect::<Vec<_>>()), values.as_ref()).ok()?),
+    };
+    Some((arr, starts))
+}
+
+/// dictionary encoding of `plain`: the distinct values (by row token) in shuffled order, a null row
+/// either a null key or the key of a null dictionary value
+fn dict_encode(rng: &mut Rng, plain: &ArrayRef, key: &DataType) -> Option<ArrayRef> {
+    use arrow_array::types::*;
+    let toks = tok::rows(plain.as_ref());
+    let null_as_value = rng.chance(50);
+    let mut distinct: Vec<(String, usize)> = vec![];
+    for (i, t) in toks.iter().enumerate() {
+        if (t != tok::NULL || null_as_value) && !distinct.iter().any(|(d, _)| d == t) {
+            distinct.push((t.clone(), i));
+        }
+    }
+    for i in (1..distinct.len()).rev() {
+        distinct.swap(i, rng.below(i + 1));
+    }
+    let values = guarded(|| arrow_select::take::take(plain.as_ref(), &UInt32Array::from(distinct.iter().map(|(_, i)| *i as u32).collect::<Vec<_>>()), None)).ok()?.ok()?;
+    let keys: Vec<Option<usize>> = toks.iter().map(|t| distinct.iter().position(|(d, _)| d == t)).collect();
+    macro_rules! mk {
+        ($kt:ty, $n:ty) => {{
+            let k = PrimitiveArray::<$kt>::from(keys.iter().map(|x| x.map(|v| v as $n)).collect::<Vec<Option<$n>>>());
+            Arc::new(DictionaryArray::<$kt>::try_new(k, values).ok()?) as ArrayRef
+        }};
+    }
+    let d: ArrayRef = match key {
+        DataType::Int8 => mk!(Int8Type, i8),
+        DataType::UInt16 => mk!(UInt16Type, u16),
+        DataType::Int32 => mk!(Int32Type, i32),
+        _ => mk!(UInt64Type, u64),
+    };
+    // now and then a permuted dictionary with duplicate / unused entries
+    if rng.chance(50) {
+        if let Some(x) = mutate::dict_shuffle(rng, &d) {
+            return Some(x);
+        }
+    }
+    Some(d)
+}
+
+/// `col` extended by a prefix (and a short suffix) so that the column is the slice `start..start+n`
+/// of the result.  kind 1: the prefix repeats the first row (a run-end slice starts inside the first
+/// run); kind 2: the prefix ends with a different value (the slice starts on a run boundary);
+/// kind 3: other rows, then copies of the first row (the slice starts inside a later run).
+fn extended(rng: &mut Rng, col: &ArrayRef, kind: usize) -> Option<(ArrayRef, usize)> {
+    let n = col.len();
+    if n == 0 {
+        return None;
+    }
+    let g = mk::array(rng, col.data_type(), 4, Cfg::wild(20));
+    let ct = tok::rows(col.as_ref());
+    let gt = tok::rows(g.as_ref());
+    // a row different from the first row of the column, and one different from both
+    let all: Vec<((usize, usize), &String)> = (0..n).map(|i| ((0, i), &ct[i])).chain((0..4).map(|i| ((1, i), &gt[i]))).collect();
+    let other = all.iter().find(|(_, t)| **t != ct[0]).map(|(p, t)| (*p, (*t).clone()));
+    let third = other.as_ref().and_then(|(_, ot)| all.iter().find(|(_, t)| **t != ct[0] && *t != ot).map(|(p, _)| *p));
+    let first = (0usize, 0usize);
+    let mut idx: Vec<(usize, usize)> = match (kind, other) {
+        (1, _) => vec![first; 1 + rng.below(3)],
+        (2, Some((o, _))) => match third {
+            Some(h) => vec![h, h, o],
+            None => vec![o, o],
+        },
+        (3, Some((o, _))) => vec![o, o, first, first],
+        _ => return None,
+    };
+    let start = idx.len();
+    idx.extend((0..n).map(|i| (0, i)));
+    for _ in 0..rng.below(3) {
+        idx.push((1, rng.below(4)));
+    }
+    let e = guarded(|| arrow_select::interleave::interleave(&[col.as_ref(), g.as_ref()], &idx)).ok()?.ok()?;
+    if e.data_type() != col.data_type() {
+        return None;
+    }
+    Some((e, start))
+}
+
+/// every operand form of one logical column: (label, array)
+fn forms(rng: &mut Rng, col: &ArrayRef) -> Vec<(String, ArrayRef)> {
+    let n = col.len();
+    let want = tok::rows(col.as_ref());
+    let mut out: Vec<(String, ArrayRef)> = vec![("plain".into(), col.clone())];
+    let push = |label: String, a: ArrayRef, out: &mut Vec<(String, ArrayRef)>| {
+        // a form must denote the column (otherwise the encoder above is at fault: drop it)
+        if a.len() == n && guarded(|| tok::rows(a.as_ref())).map(|r| r == want).unwrap_or(false) {
+            out.push((label, a));
+        }
+    };
+    let dict_keys = [("dict8", DataType::Int8), ("dictu16", DataType::UInt16), ("dict32", DataType::Int32)];
+    for (name, k) in &dict_keys {
+        if let Some(d) = dict_encode(rng, col, k) {
+            push(name.to_string(), d, &mut out);
+        }
+    }
+    for w in [16u8, 32, 64] {
+        if let Some((r, _)) = ree_encode(rng, col, w, 15) {
+            push(format!("ree{w}"), r, &mut out);
+        }
+    }
+    if let Some(d) = dict_encode(rng, col, &DataType::Int32) {
+        if let Some((r, _)) = ree_encode(rng, &d, 32, 15) {
+            push("ree32(dict)".into(), r, &mut out);
+        }
+    }
+    // sliced forms
+    for kind in 1..=3usize {
+        let Some((e, start)) = extended(rng, col, kind) else { continue };
+        if kind == 2 {
+            push("plain/s".into(), e.slice(start, n), &mut out);
+            for (name, k) in &dict_keys {
+                if let Some(d) = dict_encode(rng, &e, k) {
+                    push(format!("{name}/s"), d.slice(start, n), &mut out);
+                }
+            }
+        }
+        for w in [16u8, 32, 64] {
+            if let Some((r, starts)) = ree_encode(rng, &e, w, if kind == 1 { 0 } else { 10 }) {
+                // where the slice really starts: inside the first run, on a run boundary, inside a later run
+                let p = starts.iter().rposition(|s| *s <= start).unwrap();
+                let place = if p == 0 { "first" } else if starts[p] == start { "boundary" } else { "later" };
+                push(format!("ree{w}/{place}"), r.slice(start, n), &mut out);
+            }
+        }
+        if kind == 3 {
+            if let Some(d) = dict_encode(rng, &e, &DataType::UInt64) {
+                if let Some((r, starts)) = ree_encode(rng, &d, 32, 0) {
+                    let p = starts.iter().rposition(|s| *s <= start).unwrap();
+                    let place = if p == 0 { "first" } else if starts[p] == start { "boundary" } else { "later" };
+                    push(format!("ree32(dict)/{place}"), r.slice(start, n), &mut out);
+                }
+            }
+        }
+    }
+    out
+}
+
+/// comparison kernels over the cross product of operand forms: every form of L (plain, dictionary
+/// with several key types, run-end with several run-end types, run-end of dictionary, and slices
+/// of each that start inside the first run / on a run boundary / inside a later run) against every
+/// form of R, array/array, array/scalar and scalar/array.  One episode per left form.
+fn kernel_forms(rng: &mut Rng, args: &Args, t: &mut Shards, st: &mut Stats, dt: &DataType) {
+    let fs = ["eq", "neq", "lt", "lt_eq", "gt", "gt_eq", "distinct", "not_distinct"];
+    let n = 6 + rng.below(9);
+    let l = runny(rng, dt, n);
+    // R: rows of L, some replaced (in runs), so that all of <, =, > and nulls occur
+    let other = runny(rng, dt, n);
+    let mut src = 0usize;
+    let idx: Vec<(usize, usize)> = (0..n)
+        .map(|i| {
+            if rng.chance(35) {
+                src = 1 - src;
+            }
+            (src, i)
+        })
+        .collect();
+    let r = match guarded(|| arrow_select::interleave::interleave(&[l.as_ref(), other.as_ref()], &idx)) {
+        Ok(Ok(m)) if m.len() == n && m.data_type() == dt => m,
+        _ => other,
+    };
+    let lforms = forms(rng, &l);
+    let rforms = forms(rng, &r);
+    // one-row scalars cut out of the right forms (a later row, so that run-end scalars start in a later run)
+    let rscalars: Vec<(String, ArrayRef)> = rforms.iter().map(|(name, a)| (format!("{name}[1]"), a.slice(n / 2 + rng.below(n - n / 2), 1))).collect();
+    for (lname, la) in &lforms {
+        let mut cols = vec![la.clone()];
+        let mut labels = vec![lname.clone()];
+        for (name, a) in rforms.iter().chain(rscalars.iter()) {
+            cols.push(a.clone());
+            labels.push(name.clone());
+        }
+        // a scalar cut out of the left form
+        cols.push(la.slice(n / 2 + rng.below(n - n / 2), 1));
+        labels.push(format!("{lname}[1]"));
+        let lscalar = cols.len() - 1;
+        let nr = rforms.len();
+        let mut ep = Ep::begin(t, st, cols, "forms");
+        ep.labels = labels;
+        for j in 0..nr {
+            let f = *rng.pick(&fs);
+            ep.kern(f, 0, false, 1 + j, false);
+        }
+        for _ in 0..args.scale(4, 8) {
+            let f = *rng.pick(&fs);
+            ep.kern(f, 0, false, 1 + nr + rng.below(nr), true);
+        }
+        for _ in 0..args.scale(3, 6) {
+            let f = *rng.pick(&fs);
+            ep.kern(f, lscalar, true, 1 + rng.below(nr), false);
+        }
+    }
+}
+
 /// 2-3 columns: lexsort with limits, lexicographic comparator, partition
 fn multi_column(rng: &mut Rng, args: &Args, t: &mut Shards, st: &mut Stats, types: &[DataType]) {
     let k = 2 + rng.below(2);
@@ -636,6 +881,20 @@ fn repro() {
     let ree = RunArray::<Int32Type>::try_new(&run_ends, &vals).unwrap();
     let s = ree.slice(1, 1);
     show("eq(Scalar(ree slice(1,1) -> 9), Scalar(same))  [expected Ok([Some(true)])]", guarded(|| cmp::eq(&Scalar::new(&s), &Scalar::new(&s))));
+    // C10-listview-array-equality
+    {
+        use arrow_buffer::ScalarBuffer;
+        let f = Arc::new(Field::new("item", DataType::Int32, true));
+        let mk = |child: Int32Array, size: i32| -> ArrayRef {
+            Arc::new(ListViewArray::new(f.clone(), ScalarBuffer::from(vec![0i32]), ScalarBuffer::from(vec![size]), Arc::new(child), None))
+        };
+        let a = mk(Int32Array::from(vec![None, None]), 1);
+        let b = mk(Int32Array::from(vec![Some(7), Some(8)]), 1);
+        println!("ListView [[null]] == [[7]]: {:?}   [expected Ok(false)]", guarded(|| a.as_ref() == b.as_ref()));
+        let a2 = mk(Int32Array::from(vec![None, Some(1)]), 1);
+        let b2 = mk(Int32Array::from(vec![Some(7), None]), 1);
+        println!("ListView [[null]] == [[7]] (both children have a validity buffer): {:?}   [expected Ok(false)]", guarded(|| a2.as_ref() == b2.as_ref()));
+    }
     // C10-sort-zero-width-values
     let z: ArrayRef = Arc::new(FixedSizeBinaryArray::try_new_with_len(0, arrow_buffer::Buffer::from_vec(Vec::<u8>::new()), None, 3).unwrap());
     match guarded(|| sort_limit(z.as_ref(), None, Some(2))) {
@@ -679,6 +938,16 @@ fn main() {
         for _ in 0..args.scale(40, 120) {
             multi_column(&mut rng, &args, &mut t, &mut st, &types);
         }
+    }
+    // operand forms of the comparison kernels: a few value types per run, always a numeric, a string and a
+    // boolean one (the cross product of forms is covered for each of them)
+    let flat: Vec<DataType> = mk::flat_types().into_iter().filter(|t| !zero_width(t)).collect();
+    let mut form_types = vec![DataType::Int32, DataType::Utf8, DataType::Boolean];
+    for _ in 0..args.scale(1, 9) {
+        form_types.push(rng.pick(&flat).clone());
+    }
+    for dt in &form_types {
+        kernel_forms(&mut rng, &args, &mut t, &mut st, dt);
     }
     for d in domains(args.thorough()) {
         let maxlen = if args.thorough() && d.len() <= 4 { 4 } else { 3 };
